@@ -117,6 +117,7 @@ def symlink_destinations(ds, scratch):
     path gives exactly the serialisation, and apart from the named entry and the file the link really led to, no entry
     of the tree — the working directory included — was created, removed or changed."""
     fails, n = [], 0
+    model_cases = []
     cwd = os.getcwd()
     old_tmp = tempfile.tempdir
     root = os.path.join(scratch, "links")
@@ -173,6 +174,7 @@ def symlink_destinations(ds, scratch):
                     os.chdir(cwd)
                 after = snap()
                 case = {"name": "sub/out." + fmt, "destination_is": "a symbolic link, " + kind, "format": fmt}
+                model_cases.append((case, before, "sub/out." + fmt, expected, after))
                 if raised:
                     fails.append(dict(case, what="serialize to a name that is a symbolic link raised", exc=raised))
                     continue
@@ -231,6 +233,28 @@ def symlink_destinations(ds, scratch):
     finally:
         os.chdir(cwd)
         tempfile.tempdir = old_tmp
+    # the same cases through the model of the write protocol over files and links (IOLinks.serialize_to_l; temp file and
+    # destination are on one file system here, so the last step is os.rename): the tree afterwards must be the model's
+    if os.path.exists(common.DRIVER) and model_cases:
+        def entries(snapd, linkdir_of):
+            out = []
+            for rel, e in sorted(snapd.items()):
+                if e[0] == "file":
+                    out.append([rel, ["file", e[1].decode("utf-8", "replace")]])
+                else:
+                    t = e[1]
+                    t = os.path.relpath(t, root) if os.path.isabs(t) else os.path.normpath(os.path.join(os.path.dirname(rel), t))
+                    out.append([rel, ["link", t]])
+            return out
+        reqs = [dumps(["destlinks", entries(b, None), name, exp.decode("utf-8", "replace")]) for _, b, name, exp, _ in model_cases]
+        for (case, b, name, exp, a), line in zip(model_cases, common.run_model_batch(reqs)):
+            m = loads(line)
+            want = sorted((x[0], tuple(x[1])) for x in m[1]) if isinstance(m, list) and m and m[0] == "ok" else None
+            got = sorted((x[0], tuple(x[1])) for x in entries(a, None))
+            if want != got:
+                fails.append(dict(case, what="the tree after the call is not the one the model of the write protocol gives "
+                                             "(IOLinks.serialize_to_l; C17_links_exact)",
+                                  model=str(want)[:400], implementation=str(got)[:400]))
     return n, fails
 
 
